@@ -10,7 +10,7 @@ Not decided: that payload *values* (register bytes, compressed CPC words, hash e
 from .. import ir, sym, formula, proto, specfmt
 from ..main import Result
 from . import common as C
-from .common import show
+from .common import show, Sym
 
 LABELS = {"hip": 1001.25, "kxq0": 1002.25, "kxq1": 1003.25, "numatcurmin": 777, "min": -5.5, "max": 99.5, "nsv": 71, "tw": 72, "ww": 73, "kxp": 3.25}
 IMPLS = {"frequencies": None}
@@ -161,6 +161,49 @@ def run(prog, ctx):
             verdict = None
         res.tri(verdict, "C12.N", "C12.N|num_entries_bytes", "%s: %s" % (nf.id, wit), nf.id)
     res.rule("C12.N", n_n, 1, "width of the entry-count field of compressed theta images")
+    # ---------------- C12.S frequent items: the image announces `active_items` and then carries that many counters and that many
+    # items; the two lists are produced by sibling selectors of the map, which must select on the occupancy array the map itself
+    # uses to decide whether a slot is active (a selector keyed on another array writes a different number of entries after a
+    # purge has left stale data behind)
+    n_s = 0
+    M = "frequencies::reverse_purge_item_hash_map::ReversePurgeItemHashMap"
+
+    def elem_field(x):
+        """field of self an element expression reads: index(self.F, _) / self.F[_] / next(iter(self.F))"""
+        x0 = x
+        while isinstance(x, tuple) and x and x[0] == "call" and x[1].rsplit("::", 1)[-1] in ("next", "iter", "into_iter", "deref", "index", "copied", "cloned") and x[2]:
+            x = x[2][0]
+        if isinstance(x, tuple) and x and x[0] == "index":
+            x = x[1]
+        if isinstance(x, tuple) and x and x[0] == "field" and x[1][0] == "param" and x[1][1] == 1 and x is not x0:
+            return x[2]
+        return None
+    mfns = [f for f in prog.fns.values() if not f.promoted and f.id.startswith(M) and "{closure" not in f.id]
+    occ = set()
+    for f in mfns:
+        if f.local_ty(0) == "bool" and f.argc == 2:
+            e = C.ret_expr(prog, f)
+            if e is not None and e[0] == "bin" and e[1] in ("Gt", "Ne") and e[3][:2] == ("const", 0):
+                fld = elem_field(e[2])
+                if fld:
+                    occ.add(fld)
+    for f in mfns:
+        if "Vec<" not in f.local_ty(0):
+            continue
+        sf = Sym(prog, f)
+        for b, site in f.calls():
+            if not (site.get("callee") or "").endswith("::push"):
+                continue
+            guards = [elem_field(t[1]) for t in sf.cmp_facts_at(b) if len(t) == 3 and t[0] in ("Gt", "Ne") and t[2][:2] == ("const", 0)]
+            guards = [g for g in guards if g]
+            n_s += 1
+            if len(occ) != 1 or len(set(guards)) != 1:
+                res.tri(None, "C12.S", "C12.S|%s" % f.id, "selector guard or the map's occupancy test not recognised (occupancy %s, guards %s)" % (sorted(occ), guards), f.id)
+                continue
+            res.tri(guards[0] in occ, "C12.S", "C12.S|%s" % f.id,
+                    "%s selects the entries to serialize by `%s[i] > 0` while the map decides occupancy by `%s[i] > 0`: after a purge the counters / items "
+                    "written no longer match the announced number of active items" % (f.id, guards[0], sorted(occ)[0]), f.id, site.get("span"))
+    res.rule("C12.S", n_s, 2, "frequent-items selectors vs the map's occupancy test")
     res.rule("C12.F", n, 7, "family ids")
     res.functions_analysed = sum(v["write_sites"] for v in res.extra["families"].values())
     res.entry_points = ["%s::%s" % specfmt.FAMILIES[f]["writer"] for f in sorted(specfmt.FAMILIES)]
